@@ -700,6 +700,8 @@ class AEval:
                 return o.attrs[a[1]]
             if isinstance(o, tuple) and a[1] in getattr(o, '_fields', ()):
                 return getattr(o, a[1])      # record value (named tuple of the abstraction)
+            if self.typed and o is None:
+                raise Raised('a null pointer is dereferenced (member %s)' % a[1], e.loc)
             raise AnalysisError('abstract evaluation: attribute %s of %r at %s' % (a[1], o, e.loc))
         if k == 'index':
             o = self.ev(a[0], env, depth)
@@ -769,6 +771,8 @@ class AEval:
                     o = o.get()
                 if isinstance(o, AObj):
                     return Ref(o.attrs, t.a[1])
+                if self.typed and o is None:
+                    raise Raised('a null pointer is dereferenced (address of its member %s)' % t.a[1], e.loc)
             if t.k == 'var' and t.a[0] in env:
                 if env.get('\x00ref:' + t.a[0]) and isinstance(env[t.a[0]], Ref):
                     return env[t.a[0]]       # the address of a reference is the address of what it refers to
